@@ -83,6 +83,14 @@ fn tier_params(tier: &str) -> Tier {
             b: 16,
             c: 30_000,
         },
+        // development aid: the single-call stratum only (hash seeds, enumeration orders, CLI)
+        "seedonly" => Tier {
+            harvest_gen: 300,
+            a: 6_000,
+            a_k: 4,
+            b: 16,
+            c: 16,
+        },
         "smoke" => Tier {
             harvest_gen: 300,
             a: 200,
@@ -146,6 +154,7 @@ fn classify_kind(plan: &Plan, v: &Violation) -> String {
             via_insert,
             ..
         } => *via_hashmap || *via_insert || !dups.is_empty() || order.iter().enumerate().any(|(i, o)| i != *o),
+        ops::Op::Cli { readdir_seed, .. } => *readdir_seed != 0,
         _ => false,
     });
     if plan.fresh_exec {
@@ -385,6 +394,8 @@ impl Agg {
             ("clock", f.clock),
             ("log_level", f.log_level),
             ("address_space", f.address_space),
+            ("cli_process", f.cli_process),
+            ("cli_readdir_permuted", f.cli_readdir_permuted),
         ] {
             if v > 0 {
                 Self::bump(&mut self.fault_execs, k, 1);
@@ -847,8 +858,8 @@ fn cmd_run(args: &[String]) -> i32 {
             "determinism_reruns_same_outputs_other_event_order": agg.digest_mismatches,
             "violation_clusters": clusters.iter().map(|(s, m)| serde_json::json!({"signature": s, "executions": m.len()})).collect::<Vec<_>>(),
             "known_findings_hit": known_hits,
-            "components_real": ["prqlc", "prqlc-parser", "chumsky", "sqlparser", "sqlformat", "ariadne", "regex", "serde_json", "csv", "chrono", "std RwLock/OnceLock (uncontended, under shadow locks)", "prqlc::debug::MessageLogger (during debug sessions)", "prqlc-c (the C binding's extern \"C\" entry points and result_destroy, source included by build.rs)"],
-            "components_stubbed": ["getrandom (PRNG; decides std RandomState keys)", "clock_gettime (simulated clock)", "global allocator (system allocator plus a scheduling hook and heap-layout perturbation)", "log global logger (harness logger wired like the CLI's: preemption points, injected panics, forwards to the real MessageLogger during debug sessions); log max level set per context", "thread scheduling (real OS threads parked and released one at a time by the simulator's seeded scheduler; optional shuttle 0.9.3 coroutine engine)", "__tsan_atomic* / __sanitizer_cov_trace_pc_guard callbacks of the instrumented library crates (scheduling point, then the real atomic operation)", "colour environment variables removed, stderr not a terminal", "address-space layout: not stubbed and not seeded - a fresh execve per `address_space` execution lets the kernel draw it"],
+            "components_real": ["prqlc", "prqlc-parser", "chumsky", "sqlparser", "sqlformat", "ariadne", "regex", "serde_json", "csv", "chrono", "std RwLock/OnceLock (uncontended, under shadow locks)", "prqlc::debug::MessageLogger (during debug sessions)", "prqlc-c (the C binding's extern \"C\" entry points and result_destroy, source included by build.rs)", "the prqlc command-line binary (src/cli: argument parsing, clio/walkdir file discovery, read_files, execute, error printing, fmt's in-place rewrite, --debug-log wiring) built from the working tree without hooks or instrumentation and run as a process of its own (operation cli)"],
+            "components_stubbed": ["getrandom (PRNG; decides std RandomState keys)", "clock_gettime (simulated clock)", "global allocator (system allocator plus a scheduling hook and heap-layout perturbation)", "log global logger (harness logger wired like the CLI's: preemption points, injected panics, forwards to the real MessageLogger during debug sessions); log max level set per context", "thread scheduling (real OS threads parked and released one at a time by the simulator's seeded scheduler; optional shuttle 0.9.3 coroutine engine)", "__tsan_atomic* / __sanitizer_cov_trace_pc_guard callbacks of the instrumented library crates (scheduling point, then the real atomic operation)", "colour environment variables removed, stderr not a terminal", "for the command-line binary only: getrandom and readdir/readdir64 through an LD_PRELOAD library (sim/preload/verif_preload.c): hash seeds and directory enumeration order of that process are seeded; its address-space layout is the kernel's draw", "address-space layout: not stubbed and not seeded - a fresh execve per `address_space` execution lets the kernel draw it"],
         },
         "assumptions": [
             "reference context = same build, pristine process, one thread, hash base 0, identity file order, no fault; a deterministic-but-wrong output is invisible here",
@@ -905,6 +916,7 @@ fn cmd_worker(args: &[String]) -> i32 {
     let gen = gen::Gen {
         corpus: &corpus,
         verif_seed: seed,
+        cli_available: cli_available(),
     };
     seams::install();
     if phase == "H" {
@@ -1031,8 +1043,19 @@ fn cmd_probe(args: &[String]) -> i32 {
     0
 }
 
+fn cli_available() -> bool {
+    let (bin, pre) = ops::cli_paths();
+    bin.exists() && pre.exists()
+}
+
 fn main() {
     let args: Vec<String> = std::env::args().collect();
+    // scratch directories of operation `cli` live under one directory per driver process,
+    // which that process removes when it is done
+    let owns_scratch = std::env::var_os("VERIF_CLI_SCRATCH").is_none();
+    if owns_scratch {
+        std::env::set_var("VERIF_CLI_SCRATCH", format!("{}/{}", ops::CLI_SCRATCH, std::process::id()));
+    }
     let code = match args.get(1).map(|s| s.as_str()) {
         Some("run") => cmd_run(&args),
         Some("worker") => cmd_worker(&args),
@@ -1067,7 +1090,7 @@ fn main() {
             let n: u64 = arg_val(&args, "--n").and_then(|s| s.parse().ok()).unwrap_or(3000);
             let stratum = arg_val(&args, "--stratum").unwrap_or_else(|| "B".into());
             let corpus = worker::load_corpus().expect("corpus");
-            let gen = gen::Gen { corpus: &corpus, verif_seed: seed };
+            let gen = gen::Gen { corpus: &corpus, verif_seed: seed, cli_available: cli_available() };
             for i in 0..n {
                 let p = match stratum.as_str() {
                     "A" => gen.plan_a(i, 4),
@@ -1106,5 +1129,10 @@ fn main() {
             2
         }
     };
+    if owns_scratch {
+        if let Some(d) = std::env::var_os("VERIF_CLI_SCRATCH") {
+            let _ = std::fs::remove_dir_all(d);
+        }
+    }
     std::process::exit(code);
 }
